@@ -28,7 +28,7 @@ def soup_jobs(ctx, mode, plan, framed=False, tolerate=()):
     return jobs
 
 
-MUT_LABELS = ["two", "stmt-mix", "params-multiline", "nested-middle", "nested-two", "class-methods", "one-arrow", "anon", "nested-3-levels"]
+MUT_LABELS = ["two", "stmt-mix", "params-multiline", "nested-middle", "nested-two", "class-methods", "one-arrow", "anon", "nested-3-levels", "x-arrow-then-fn", "x-arrow-encloses-fn"]
 MUT_OPS = ["none", "prefix", "suffix", "delete", "dup", "swap", "replace"]
 
 
@@ -40,6 +40,7 @@ def mutation_jobs(ctx, labels=None, tolerate=()):
     T = 240 if ctx.quick() else 600
     for lang in skel.LANGS:
         have = dict(skel.programs(lang, "quick"))
+        have.update({k: v for k, v in skel.extra_programs(lang).items() if k in ("x-arrow-then-fn", "x-arrow-encloses-fn")})
         for label in (labels or (MUT_LABELS[:5] if ctx.quick() else MUT_LABELS)):
             if label not in have:
                 continue
